@@ -316,6 +316,13 @@ class Exec(StmtMixin, CallMixin):
         out = {}
         for k, v in zip(n.keys, n.values):
             if k is None:
+                vv = self.eval(v, st)
+                if isinstance(vv, dict):
+                    out.update(vv)          # {**d, ...} of a concrete-keyed dictionary
+                    continue
+                if type(vv).__name__ == "Op":   # orchestration mode: an opaque mapping spliced in
+                    out["**" + vv.text] = vv
+                    continue
                 raise Unsupported("dict unpacking (line %d)" % n.lineno)
             kk = self.eval(k, st)
             if not isinstance(kk, (str, int)):
